@@ -58,7 +58,7 @@ def check_case(spec: dict) -> dict:
         except Exception as e:  # noqa: BLE001
             obj = ("error", f"{type(e).__name__}: {e}")
     # second rendering: imports relative to module_path's parent directory
-    alt = None
+    alt = alt3 = None
     if sub_rel:
         parent = ".".join(sub.split(".")[:-1])  # dotted name of module_path.parent
 
@@ -67,6 +67,21 @@ def check_case(spec: dict) -> dict:
 
         with Project(root, PS.render_files(spec, rename_target=rel_name), spec["dirs"]) as pr2:
             alt = scan_outcome(pr2.path(), pr2.path(sub_rel))
+
+        # third rendering: 'from <package relative to module_path's parent> import <last component>'
+        def from_stmt(t):
+            r = rel_name(t)
+            if r != t and "." in r:
+                return "from " + r.rsplit(".", 1)[0] + " import " + r.rsplit(".", 1)[1]
+            return "import " + r
+
+        files3 = {f: "" for f in spec["pyfiles"]}
+        for f, t in spec.get("imports", []):
+            files3[f] += from_stmt(t) + "\n"
+        for f in spec.get("otherfiles", []):
+            files3[f] = "not python\n"
+        with Project(root, files3, spec["dirs"]) as pr3:
+            alt3 = scan_outcome(pr3.path(), pr3.path(sub_rel))
 
     if full[0] != "ok":
         v("scan-error", full[1])
@@ -110,6 +125,12 @@ def check_case(spec: dict) -> dict:
                 elif (set(alt[1][0]), PS.drop_ancestor_imports(alt[1][1])) != (set(part[1][0]), PS.drop_ancestor_imports(part[1][1])):
                     v("relative-rendering-differs", f"module_path={sub}: imports written relative to module_path's parent give "
                       f"{sorted(alt[1][1])}, fully qualified give {sorted(part[1][1])}")
+    if sub_rel and full[0] == "ok" and part[0] == "ok":
+        if alt3[0] != "ok":
+            v("from-import-rendering-error", alt3[1])
+        elif (set(alt3[1][0]), PS.drop_ancestor_imports(alt3[1][1])) != (set(part[1][0]), PS.drop_ancestor_imports(part[1][1])):
+            v("from-import-rendering-differs", f"module_path={sub}: 'from <pkg relative to module_path.parent> import <module>' gives "
+              f"{sorted(PS.drop_ancestor_imports(alt3[1][1]))}, fully qualified 'import' gives {sorted(PS.drop_ancestor_imports(part[1][1]))}")
     if part[0] == "ok":
         if obj[0] != "ok":
             v("module-object-entry-error", obj[1])
